@@ -59,6 +59,17 @@ def gen_cases(out, explore):
             victim = stream[rnd.randrange(n)]
             init = dict(nodes=[], assoc=[(victim["par"] or 77, victim["id"])])
         cases.append(dict(bs=bs, init=init, runs=runs))
+    # batches above SQLite's historical bound-variable limit (999): a stored span re-sent as the 999th / 1000th / 1001st distinct
+    # id of one batch under the default batch size (and a larger one)
+    for k in range(1 if quick else 4):
+        n = 1003 + 50 * k
+        pos = [998, 999, 1000, 997][k % 4]
+        first = [mk(5000 + j, None if j == 0 else 5000, j) for j in range(3)]
+        big = [mk(6000 + j, None if j == 0 else 6000 + rnd.randrange(j), j) for j in range(n)]
+        big[pos] = dict(first[1], st=77, en=78)         # the re-sent span (other payload)
+        if k % 2 == 1:
+            big[pos + 3] = dict(first[2])
+        cases.append(dict(bs=[1000, 2000][k % 2], init=None, runs=[first, big]))
     return cases, n_exh, n_rand
 
 
@@ -178,10 +189,11 @@ def run(out: common.Outcome, explore: int = 0) -> None:
         "rule": f"exhaustive: every stream of length <= {4 if out.tier == 'quick' else 5} over 3 span ids x every batch size 1..n+1 x "
                 "splits into two `with` blocks; random: streams up to 40 events with duplicate ids carrying different payload/parent, "
                 "inside a batch, across batches, across blocks, whole-block re-ingestion, batch sizes incl. larger than the stream; "
+                "one (thorough: four) stream of 1000+ spans in which a stored span recurs around position 999 of a batch of 1000 / 2000; "
                 "12% start from a store with stale association rows (outside the theorem's invariant, correspondence only); "
                 "non-trivial = stream contains a duplicate id and spans more than one batch",
         "exhaustive_cases": n_exh, "random_cases": n_rand,
-        "samples": [{"case": cases[i], "implementation": results[i]} for i in (min(300, len(cases) - 1), len(cases) - 1)],
+        "samples": [{"case": cases[i], "implementation": results[i]} for i in (min(300, len(cases) - 1), min(len(cases) - 1, n_exh + 5))],
         "traces_validated_against_impl": len(cases) - len(coq_fail) * shard,
         "model_impl_disagreements": len(dis), "spec_rejections": len(spec_bad),
         "crashing_cases_outside_invariant": sum(1 for c, r in zip(cases, results) if any(s != "ok" for s in r[0])),
